@@ -12,7 +12,8 @@ EXPLANATION = (
     "characters, arguments forwarded in order), from_bin adds the prefix; parsed strings are stored through set_val (C01.R1); R6 both string arms of the normaliser (str/list/tuple and ndarray of str) parse with n_frac=None in raw mode, with the object's n_frac otherwise, and never type raw integer codes as float. DECLINED: the end-to-end bijection over all 2^n_word codes."
     " Added after the third round of seeded changes: constructor state (C20.R2: prefixes and modes are the object's own), the rounding table (C05) and the overflow stage incl. the rule that arrays of Python ints are clamped by np.clip, not by a helper vectorised without otypes (C02.R6)."
     ' Added after the fourth round of seeded changes: R7 utils.base_repr returns np.base_repr(x, base) and inserts a point only for base 2; a scalar code is rendered from int(code); C20.R8 objects carry only the documented attributes and no function writes module-level containers (no caches / memos that go stale).'
-    ' Added after the fifth round of seeded changes: C20.R8 also forbids mutable default arguments and private attributes hung on operands (x._cache, x.__dict__[...]).')
+    ' Added after the fifth round of seeded changes: C20.R8 also forbids mutable default arguments and private attributes hung on operands (x._cache, x.__dict__[...]).'
+    " Added after the sixth round of seeded changes: R8 utils.add_binary_prefix returns the prefix followed by the caller's digits (character clean-ups only: no digit or point added or removed); R9 bin/hex/base_repr iterate exactly under a rank test of the buffer (ndim > 0 / shape != ()), a size test is not a rank test; R5 a wrapper that forwards one of its parameters unchanged to the constructor / set_val / resize gives it the callee's default (from_bin(signed=True) would re-sign a like= reference).")
 ASSUMPTIONS = ["np.binary_repr(v, width=w) is the w-character two's-complement image; np.base_repr is sign-magnitude (lemmas)", "'{0:0{1}X}'.format zero-pads to width {1} in upper-case hex"]
 TRUSTED = ["CPython ast", "string.Formatter.parse", "fxlint abstract string domain"]
 
